@@ -1745,6 +1745,70 @@ func rangeProp(c rangeCase, r *pbt.R) error {
 
 // ---------------------------------------------------------------------------
 
+// ---------------------------------------------------------------------------
+// the helpers are pure: several goroutines calling them at the same time, each on its own input, get what they get alone
+
+type ParCase struct {
+	H    int `json:"h"`
+	Size int `json:"size"`
+	W    int `json:"workers"`
+}
+
+var parNames = []string{"Range", "RangeRight", "Range[float64]", "Sum+Mean", "FindMin+FindMax", "IndexOf+LastIndexOf", "FindAll", "Nth", "FindMinBy"}
+
+func parInput(w, size int) []int {
+	out := make([]int, size)
+	for i := range out {
+		out[i] = (i*i*(w+3) + 7*i + w) % (size/2 + 11)
+	}
+	return out
+}
+
+func parProp(c ParCase, r *pbt.R) error {
+	h := norm(c.H, len(parNames))
+	size := 64 + norm(c.Size, 6000)
+	workers := 2 + norm(c.W, 7)
+	f := func(w int) string {
+		switch h {
+		case 0:
+			v, err := gogu.Range(-7000-w, 7, -7000-w-size)
+			return pbt.Digest(fmt.Sprint(v, err))
+		case 1:
+			v, err := gogu.RangeRight(w, 3, w+size)
+			return pbt.Digest(fmt.Sprint(v, err))
+		case 2:
+			v, err := gogu.Range(float64(w)/4, 0.25, float64(w)/4+float64(size)/8)
+			return pbt.Digest(fmt.Sprint(v, err))
+		case 3:
+			in := parInput(w, size)
+			return fmt.Sprint(gogu.Sum(in), gogu.Mean(in))
+		case 4:
+			in := parInput(w, size)
+			return fmt.Sprint(gogu.FindMin(in), gogu.FindMax(in))
+		case 5:
+			in := parInput(w, size)
+			return fmt.Sprint(gogu.IndexOf(in, in[size/2]), gogu.LastIndexOf(in, in[size/3]))
+		case 6:
+			in := parInput(w, size)
+			return pbt.Digest(gogu.FindAll(in, func(v int) bool { return v%3 == w%3 }))
+		case 7:
+			in := parInput(w, size)
+			a, e1 := gogu.Nth(in, -1-w)
+			b, e2 := gogu.Nth(in, size+w)
+			return fmt.Sprint(a, e1, b, e2)
+		default:
+			in := parInput(w, size)
+			return fmt.Sprint(gogu.FindMinBy(in, func(v int) int { return (v*7 + w) % 101 }))
+		}
+	}
+	if err := pbt.Concurrently(workers, 6, f); err != nil {
+		return fmt.Errorf("%s on inputs of about %d elements: %v", parNames[h], size, err)
+	}
+	r.NonTrivial()
+	r.Label(parNames[h])
+	return nil
+}
+
 func TestProp(t *testing.T) {
 	pbt.Run(t, "C13",
 		&pbt.Check[searchCase]{
@@ -1829,6 +1893,14 @@ func TestProp(t *testing.T) {
 			Enum: rangeEnum, Gen: rangeGen, Prop: rangeProp, OutOfEnum: rangeOut,
 			RapidQuick: 1500, RapidThorough: 20000,
 			Fixed: []rangeCase{{Args: []int{}}, {Args: []int{0, 1, 2, 3}}, {Args: []int{5, 2}}, {Args: []int{-5, 1, -2}}, {Args: []int{3, -1, 3}}},
+		},
+		&pbt.Check[ParCase]{
+			Name: "parallel",
+			Rule: "the helpers are pure functions: 2..8 goroutines call one of Range, RangeRight, Range[float64], Sum+Mean, FindMin+FindMax, IndexOf+LastIndexOf, FindAll, Nth, FindMinBy at the same time (real scheduler), each on its own input of 64..6000 elements, six times; every answer must equal the answer the same call gives when it runs alone (computed beforehand). Non-trivial = every case.",
+			Gen:        func(s pbt.Src, _ bool) ParCase { return ParCase{H: s.Intn(len(parNames)), Size: s.Intn(6000), W: s.Intn(7)} },
+			Prop:       parProp,
+			OutOfEnum:  func(ParCase, bool) bool { return true },
+			RapidQuick: 12, RapidThorough: 200,
 		},
 	)
 }
